@@ -20,6 +20,7 @@ func e2Report(c *fw.Case, sum *e2Summary, label string) {
 	c.Obs("distinct_images_recovered", int64(sum.judged))
 	c.Obs("images_judged_after_continuation", int64(sum.contJudged))
 	c.Obs("sessions_with_concurrent_clients", int64(sum.concurrent))
+	c.Obs("puts_through_a_reused_caller_buffer", int64(sum.scratchPuts))
 	c.ObsMax("max_calls_in_flight_at_once", int64(sum.maxInflight))
 	for ph, n := range sum.byPhase {
 		// an image can lie inside several activities at once (e.g. a flush during Close while a compaction runs)
